@@ -16,14 +16,20 @@ Ties (all compared inside Coq by vm_compute, model = coq/theories/Util.v):
     -NA / multiple -opCat / missing category, phase lines, clock-scaling line, autopilot after the table).
   * end to end: shared scenario generator -> Acelyzer(...).run() with -c <log> --freq soc:core under several option
     sets; the model is evaluated on the kernel slices of the EXPORTED json and must reproduce pt_active of every
-    kernel slice, the multiset of exported 'PT Active' counters and the csv the same run wrote.
+    kernel slice, the multiset of exported 'PT Active' counters and the csv the same run wrote.  Next to the shared
+    scenarios a stream of kernel CHAINS (gen_chain: Exec slices exactly back to back, TS3 == TS4 of the predecessor,
+    so that the closing sample of one kernel and the opening sample of the next share a timestamp), also under
+    changed counter selections (-C).
   * off-grid (supporting, ORACLE ONLY - no Coq comparison): 560:800 / 1000:1100 MHz style frequencies and decimal
     times; pt_active / Percent up to relative 1e-12, csv sums up to relative 1e-9, Ideal_Cyc exact, row order not
     checked.
 Oracle (independent of the model, exact Fractions, from the generator's ground truth): per kernel slice pt_active =
 min(1, (cycles/core)/dur) iff listed with non-zero cycles, counter pair (100*pt_active at ts, 0 at ts+dur), none
 otherwise; csv: every slice counted once in its category (else 'other'), Total = sum of the category rows in all
-three components, sum of Calls = number of kernel slices, ratios within half a printed unit.
+three components, sum of Calls = number of kernel slices, ratios within half a printed unit.  End to end also the
+exported 'PT Active' samples of a rank read as ONE counter track in file order (the last sample at a timestamp is the
+value from then on): at every sample / kernel boundary it reads 100*pt_active of the kernel running then, else 0
+(oracle_track; instants touched by genuinely overlapping counted kernels are left out).
 """
 import contextlib
 import csv
@@ -719,6 +725,56 @@ def shrink_direct(case, workdir, sig_kind, budget=40.0):
     return cur
 
 
+def shrink_e2e(ec, f, workdir, budget=15.0):
+    """drop whole input files and whole slices (an X event, or a B with its E) while a failure with the same
+    signature remains; -> (smaller case, its failure)"""
+    t0 = time.time()
+    want = f["signature"]
+
+    def bad(c):
+        obs, _m, ks, rest = run_e2e(c, workdir)
+        if isinstance(obs, enc.Err):
+            return None
+        for g in oracle_e2e(c, ks, rest[0], rest[1]):
+            if g["signature"] == want:
+                return g
+        return None
+
+    def groups(evs):
+        out, i = [], 0
+        while i < len(evs):
+            if evs[i].get("ph") == "B" and i + 1 < len(evs) and evs[i + 1].get("ph") == "E" and \
+                    evs[i + 1]["name"] == evs[i]["name"]:
+                out.append(evs[i:i + 2])
+                i += 2
+            else:
+                out.append(evs[i:i + 1])
+                i += 1
+        return out
+    cur, curf = dict(ec), f
+    for fn in list(cur["files"]):
+        if len(cur["files"]) > 1 and time.time() - t0 < budget:
+            c2 = dict(cur, files={k: v for k, v in cur["files"].items() if k != fn})
+            g = bad(c2)
+            if g:
+                cur, curf = c2, g
+    changed = True
+    while changed and time.time() - t0 < budget:
+        changed = False
+        for fn in list(cur["files"]):
+            gs = groups(cur["files"][fn])
+            i = 0
+            while i < len(gs) and time.time() - t0 < budget:
+                rest_ = gs[:i] + gs[i + 1:]
+                c2 = dict(cur, files=dict(cur["files"], **{fn: [e for g_ in rest_ for e in g_]}))
+                g = bad(c2)
+                if g:
+                    cur, curf, gs, changed = c2, g, rest_, True
+                else:
+                    i += 1
+    return cur, curf
+
+
 def failure_record(mode, case, f):
     inp = {"mode": mode, "case": case}
     if mode == "direct":
@@ -772,6 +828,81 @@ def gen_e2e(rng, workdir):
     opts = rng.choice(E2E_OPTS)
     return {"files": {fn: evs for fn, evs in s.files.items()}, "freq": s.freq, "core": core, "opts": opts,
             "items": items, "text": text, "summary": s.summary()}
+
+
+# option sets of the chain stream: the general ones plus a changed counter selection (-C without coll_bw / without
+# the power counter) - the 'PT Active' track is a statement about the exported file whatever else is selected
+CHAIN_OPTS = E2E_OPTS + [["-C", "rcu_util", "power_ts4"], ["-C", "rcu_util"], ["-C", "rcu_util", "coll_bw"],
+                         ["-t", "-C", "rcu_util", "prep_queue"], ["-t", "-C", "rcu_util", "coll_bw"]]
+
+
+def gen_chain(rng):
+    """kernel CHAINS: one to three ranks whose Exec slices follow each other on the device without any idle cycle
+    (TS3 of a kernel == TS4 of its predecessor; next to it one-cycle gaps and ordinary gaps), everything on the exact
+    grid, so that the end of one slice and the start of the next are the SAME exported timestamp: the closing
+    'PT Active' sample of one kernel and the opening sample of the next tie.  Same case format as gen_e2e."""
+    from common import scenario
+    f = rng.choice([256, 512, 1024, 1024, 2048])
+    core = rng.choice(CORES)
+    R = rng.choice([1, 1, 1, 2, 3])
+    names = rng.sample(scenario.KERNELS, rng.randrange(2, 6))
+    tabled = [n for n in names if rng.random() < 0.85] or names[:1]
+    items = gen_log(rng, edge=False, pool=tabled + rng.sample(KPOOL, rng.randrange(0, 2)))
+    truth = listed(items)
+    files, nsl = {}, 0
+    for r in range(R):
+        tbase = rng.randrange(1 << 20, 1 << 34) + rng.randrange(1024) / 1024.0
+        c0 = rng.randrange(1000, scenario.W // 2)
+        c0 -= c0 % f
+        H = tbase - c0 // f
+        charge = rng.randrange(1 << 20, 1 << 30)
+        with_prep = rng.random() < 0.5
+        style = rng.random()            # mostly chained / mixed
+        p_tie = 0.9 if style < 0.3 else 0.5
+        prev4, prev_ex = c0 + rng.randrange(200, 5000), 1 << 20
+        evs = []
+        for k in range(rng.randrange(2, 9)):
+            name = rng.choice(names)
+            cyc = truth[0].get(name + " " + CE, 0) if truth else 0
+            soc_ideal = (cyc * f) // int(core)          # SoC cycles that last as long as the ideal core cycles
+            rr = rng.random()
+            if cyc and rr < 0.2:
+                ex = soc_ideal                          # 100 % (exactly, when the division is exact)
+            elif cyc and rr < 0.35:
+                ex = soc_ideal >> rng.randrange(1, 4)   # above 100 %: capped
+            elif cyc and rr < 0.65:
+                ex = soc_ideal << rng.randrange(1, 5)
+            else:
+                ex = rng.choice([rng.randrange(4, 400), rng.randrange(400, 90000)])
+            ex = max(4, ex)
+            u = rng.random()
+            gap = 0 if (k > 0 and u < p_tie) else (1 if u < p_tie + 0.15 else rng.randrange(2, 50000))
+            ts3 = prev4 + gap
+            b = rng.randrange(1, max(2, min(40, prev_ex // 2)))
+            a = rng.choice([0, rng.randrange(0, max(1, min(40, prev_ex // 4)))])
+            ts = [ts3 - b - a, ts3 - b, ts3, ts3 + ex, ts3 + ex + rng.choice([0, rng.randrange(1, 30)])]
+            charge = (charge + rng.randrange(1, 4000) * (ts[4] - ts[0]) // 64 + 1) % scenario.W
+            for (kw, i, j, tid) in ([("Cmpt Prep", 1, 2, scenario.TID_PREP)] if with_prep else []) + \
+                    [(CE, 2, 3, scenario.TID_EXEC)]:
+                attr = {"TS" + str(q + 1): (hex(ts[q]) if rng.random() < 0.5 else str(ts[q])) for q in range(5)}
+                attr["Power"] = hex(charge) if rng.random() < 0.5 else str(charge)
+                t0, t1 = H + ts[i] / f, H + ts[j] / f
+                evs.append((t0, t1, {"name": f"{name} {kw}", "pid": r, "tid": tid, "ts": t0, "attr": attr}))
+                nsl += 1
+            prev4, prev_ex = ts[3], ex
+        evs.sort(key=lambda x: x[0])
+        out = []
+        if rng.random() < 0.5:
+            out.append({"ph": "M", "name": "process_name", "pid": r, "ts": 0, "args": {"name": f"rank{r}"}})
+        for (t0, t1, e) in evs:
+            if rng.random() < 0.5:
+                out += [dict(e, ph="B"), {"name": e["name"], "ph": "E", "pid": e["pid"], "tid": e["tid"], "ts": t1,
+                                          "attr": dict(e["attr"])}]
+            else:
+                out.append(dict(e, ph="X", dur=t1 - t0))
+        files[f"rank{r}_job0.json"] = out
+    return {"files": files, "freq": float(f), "core": core, "opts": rng.choice(CHAIN_OPTS), "items": items,
+            "text": log_text(items), "summary": {"ranks": R, "slices": nsl, "chain": True}}
 
 
 def run_e2e(ec, workdir):
@@ -839,17 +970,92 @@ def oracle_e2e(ec, ks, cnts, csvv):
                       "signature": {"kind": "counter_wrong", "n_expected": len(want_c) - len(have) if not okc else 0,
                                     "helper_dur_exported": any(c[3] for c in cnts)}})
     fails += oracle_csv([{"pid": k["pid"], "name": k["name"], "dur": k["dur"]} for k in ks], csvv, truth, core)
+    fails += oracle_track(ks, cnts, truth, core, ec["opts"])
+    return fails
+
+
+def active_slices(ks, truth, core):
+    """pid -> [(start, end, 100 * expected pt_active, name)] of the kernel slices the property gives a counter"""
+    by = {}
+    for k in ks:
+        pt = expected_pt(truth, core, k["name"], k["dur"])
+        if pt is not None:
+            by.setdefault(k["pid"], []).append((fr(k["ts"]), fr(k["ts"]) + fr(k["dur"]), 100 * pt, k["name"]))
+    return by
+
+
+def count_ties(ks, truth, core):
+    """number of kernel slices with a counter that start exactly where another one of the same rank ends"""
+    n = 0
+    for sl in active_slices(ks, truth, core).values():
+        ends = {s[1] for s in sl}
+        n += sum(1 for s in sl if s[0] in ends)
+    return n
+
+
+def oracle_track(ks, cnts, truth, core, opts):
+    """The exported 'PT Active' samples of a rank read as a COUNTER TRACK, the way a trace viewer draws it: a sample
+    holds until the next one, and of several samples with the same timestamp the LAST one in the file is the value
+    from then on.  Property: the track shows 100 x pt_active from the start of a kernel listed with non-zero cycles
+    and is back at 0 from its end - so at every instant at which a sample or a kernel boundary lies, it must read the
+    utilisation of the kernel running then (start <= t < end), 0 when none runs.  Instants inside or at the border of
+    kernels that genuinely overlap another counted kernel of the rank are left out (two 'PT Active' pairs interleave
+    there and the text does not say what the one track shows)."""
+    fails = []
+    act = active_slices(ks, truth, core)
+    per = {}
+    for c in cnts:                                   # export order
+        if c[2] is None:
+            continue
+        per.setdefault(c[0], []).append((fr(c[1]), fr(c[2])))
+    allk = {}
+    for k in ks:
+        allk.setdefault(k["pid"], []).append((fr(k["ts"]), fr(k["ts"]) + fr(k["dur"])))
+    stats = "-t" not in opts
+    coll_bw = ("coll_bw" in opts) if "-C" in opts else True
+    for pid in sorted(set(per) | set(allk), key=str):
+        sl = act.get(pid, [])
+        taint = [a for a in sl if any(b is not a and a[0] < b[1] and b[0] < a[1] for b in sl)]
+        smp = per.get(pid, [])
+        points = sorted({t for t, _ in smp} | {x for s in allk.get(pid, []) for x in s})
+        for t in points:
+            if any(a[0] <= t <= a[1] for a in taint):
+                continue
+            cover = [a for a in sl if a[0] <= t < a[1]]
+            want = cover[0][2] if cover else F(0)
+            before = [s for s in smp if s[0] <= t]
+            if before:
+                last_t = max(s[0] for s in before)
+                here = [s for s in before if s[0] == last_t]
+                got = here[-1][1]
+            else:
+                last_t, here, got = None, [], F(0)
+            if close(got, want):
+                continue
+            fails.append({"expected": {"pid": pid, "at": float(t), "track reads": float(want),
+                                       "kernel running": cover[0][3] if cover else None,
+                                       "kernel interval": [float(cover[0][0]), float(cover[0][1])] if cover else None},
+                          "observed": {"track reads": float(got),
+                                       "samples at the last sampled instant, in export order":
+                                           [[float(a), float(b)] for a, b in here]},
+                          "signature": {"kind": "counter_track_wrong", "tie": len(here) > 1,
+                                        "reads_zero_while_kernel_runs": bool(cover) and got == 0,
+                                        "statistics": stats, "coll_bw": coll_bw}})
+            break                                   # one per rank
     return fails
 
 
 # ---------------------------------------------------------------- corpus
-def load_corpus():
+def load_corpus(e2e=False):
+    """direct-drive cases (items/core/stats/events) or, e2e=True, end-to-end cases (files/freq/core/opts/items/text)"""
     d = os.path.join(coqrun.VERIF, "corpus", ID)
     out = []
     if os.path.isdir(d):
         for fn in sorted(os.listdir(d)):
             if fn.endswith(".json"):
                 c = json.load(open(os.path.join(d, fn)))
+                if ("files" in c) != e2e:
+                    continue
                 c["items"] = [tuple(i) for i in c["items"]]
                 c["_file"] = fn
                 out.append(c)
@@ -870,6 +1076,15 @@ def run(ctx):
                                            "all_zero_or_empty_table": 0, "aborted": 0}}
     oracle_failures, mism, ties, samples = [], [], [], []
     seen, nontriv = set(), 0
+    sigs = set()
+
+    def add_fail(mode, c, f):
+        """keep the first failing input of every distinct signature (so that a recorded finding does not crowd out
+        a different failure of the same run)"""
+        k = json.dumps(f["signature"], sort_keys=True, default=str)
+        if k not in sigs and len(oracle_failures) < 10:
+            sigs.add(k)
+            oracle_failures.append((mode, c, f))
 
     # ---- direct stream (corpus first)
     cases = load_corpus()
@@ -898,8 +1113,7 @@ def run(ctx):
             seen.add(key)
             nontriv += int(nontrivial_case(c))
         for f in oracle_direct(c, obs)[:2]:
-            if len(oracle_failures) < 6:
-                oracle_failures.append(("direct", c, f))
+            add_fail("direct", c, f)
     bad, extras, secs = coqrun.run_cases(
         "C11_direct", COQ_IMPORTS, RUN_TY, "run_check", terms, shard=40,
         extra="Local Open Scope nat_scope.\nDefinition nt := Eval vm_compute in "
@@ -952,38 +1166,45 @@ def run(ctx):
         dist["offgrid"]["cases"] += 1
         _bump(dist["offgrid"]["core"], c["core"])
         for f in oracle_direct(c, obs)[:1]:
-            if len(oracle_failures) < 6:
-                oracle_failures.append(("direct", c, f))
+            add_fail("direct", c, f)
 
-    # ---- end to end
+    # ---- end to end: corpus, the shared scenario generator, kernel chains (exact back-to-back ties)
     eterms, ecases = [], []
     ework = os.path.join(ctx.work, "e2e")
-    for i in range(ctx.pick(60, 700)):
-        ec = gen_e2e(rng, ework)
-        obs, mcase, ks, rest = run_e2e(ec, ework)
-        d = dist["e2e"]
-        d["scenarios"] += 1
-        _bump(d["options"], " ".join(ec["opts"]) or "(default)")
-        _bump(d["ranks"], ec["summary"]["ranks"])
-        tr = listed(ec["items"])
-        d["all_zero_or_empty_table"] += int(tr is not None and tr[2] == 0)
-        if isinstance(obs, enc.Err):
-            d["aborted"] += 1
-            if len(oracle_failures) < 6:
-                oracle_failures.append(("e2e", ec, {"expected": "run completes (exit 0, output written)",
-                                                   "observed": repr(obs),
-                                                   "signature": {"kind": "run_aborts", "exc": obs.tag}}))
-            continue
-        d["kernel_slices"] += len(ks)
-        ecases.append(ec)
-        eterms.append((enc.P(coq_input(mcase), enc.V(obs)), "(VB true)"))
-        key = canon(mcase)
-        if key not in seen:
-            seen.add(key)
-            nontriv += int(nontrivial_case(mcase))
-        for f in oracle_e2e(ec, ks, rest[0], rest[1])[:2]:
-            if len(oracle_failures) < 6:
-                oracle_failures.append(("e2e", ec, f))
+    dist["e2e"].update({"corpus": 0, "chain_scenarios": 0, "slices_opening_where_another_closes": 0})
+    n_gen, n_chain = ctx.pick(60, 700), ctx.pick(70, 800)
+    for i in range(-1, n_gen + n_chain):
+        if i < 0:
+            batch = load_corpus(e2e=True)
+            for ec in batch:
+                ec.setdefault("summary", {"ranks": len(ec["files"]), "chain": True})
+            dist["e2e"]["corpus"] = len(batch)
+        else:
+            batch = [gen_e2e(rng, ework) if i < n_gen else gen_chain(rng)]
+        for ec in batch:
+            obs, mcase, ks, rest = run_e2e(ec, ework)
+            d = dist["e2e"]
+            d["scenarios"] += 1
+            d["chain_scenarios"] += int(bool(ec["summary"].get("chain")))
+            _bump(d["options"], " ".join(ec["opts"]) or "(default)")
+            _bump(d["ranks"], ec["summary"]["ranks"])
+            tr = listed(ec["items"])
+            d["all_zero_or_empty_table"] += int(tr is not None and tr[2] == 0)
+            if isinstance(obs, enc.Err):
+                d["aborted"] += 1
+                add_fail("e2e", ec, {"expected": "run completes (exit 0, output written)", "observed": repr(obs),
+                                     "signature": {"kind": "run_aborts", "exc": obs.tag}})
+                continue
+            d["kernel_slices"] += len(ks)
+            d["slices_opening_where_another_closes"] += count_ties(ks, tr, ec["core"]) if tr else 0
+            ecases.append(ec)
+            eterms.append((enc.P(coq_input(mcase), enc.V(obs)), "(VB true)"))
+            key = canon(mcase)
+            if key not in seen:
+                seen.add(key)
+                nontriv += int(nontrivial_case(mcase))
+            for f in oracle_e2e(ec, ks, rest[0], rest[1])[:3]:
+                add_fail("e2e", ec, f)
     ebad, _, esecs = coqrun.run_cases("C11_e2e", COQ_IMPORTS, RUN_TY, "e2e_check", eterms, shard=10)
     ties.append({"name": "Util.e2e_val on the exported kernel slices = pt_active per slice, 'PT Active' counter "
                          "multiset and <out>_categories.csv of the same Acelyzer run (-c log --freq soc:core)",
@@ -996,8 +1217,11 @@ def run(ctx):
 
     # ---- failing inputs: shrink the direct ones
     out_fail = []
-    for mode, c, f in oracle_failures[:4]:
-        if mode == "direct":
+    for n_f, (mode, c, f) in enumerate(oracle_failures):
+        if mode == "direct" and n_f >= 4:
+            small = {k: c[k] for k in ("items", "core", "soc", "stats", "events", "offgrid") if k in c}
+            out_fail.append(failure_record("direct", small, f))
+        elif mode == "direct":
             small = shrink_direct(c, work, f["signature"]["kind"], budget=ctx.pick(25.0, 90.0))
             fs = [g for g in oracle_direct(small, run_impl(small, work))
                   if g["signature"]["kind"] == f["signature"]["kind"]]
@@ -1005,9 +1229,11 @@ def run(ctx):
             small = {k: small[k] for k in ("items", "core", "soc", "stats", "events", "offgrid") if k in small}
             out_fail.append(failure_record("direct", small, g))
         else:
+            c, f = shrink_e2e(c, f, work + "e", budget=ctx.pick(12.0, 40.0))
             out_fail.append(failure_record("e2e", {k: c[k] for k in ("files", "freq", "core", "opts", "items",
                                                                       "text")}, f))
     shutil.rmtree(work, ignore_errors=True)
+    shutil.rmtree(work + "e", ignore_errors=True)
     n_eval = len(cases) + len(pterms) + len(eterms) + dist["offgrid"]["cases"]
     return {
         "evaluations": n_eval, "distinct_nontrivial": nontriv,
@@ -1040,7 +1266,7 @@ def search(ctx, res, broken):
                 small = {k: small[k] for k in ("items", "core", "soc", "stats", "events")}
                 return [failure_record("direct", small, gs[0] if gs else fs[0])]
             if i % 40 == 0:
-                ec = gen_e2e(r, work + "e")
+                ec = gen_e2e(r, work + "e") if i % 80 == 0 else gen_chain(r)
                 obs, mcase, ks, rest = run_e2e(ec, work + "e")
                 if isinstance(obs, enc.Err):
                     fs = [{"expected": "run completes", "observed": repr(obs),
